@@ -494,6 +494,11 @@ def shrink(plan):
         new = dict(plan)
         new["schema_xml"] = "<schema/>\n"
         yield new
+        from zcsim import xmlshrink
+        for xml in xmlshrink.candidates(plan["schema_xml"]):
+            new = dict(plan)
+            new["schema_xml"] = xml
+            yield new
     if plan.get("validator"):
         new = dict(plan)
         new["validator"] = None
